@@ -753,7 +753,10 @@ func V2Revise(kind string) Action {
 		}
 		w := bc.W
 		fce, cur, ok := bc.pickV2FC(func(fc types.V2FileContract) bool {
-			return fc.ProofHeight >= bc.H && fc.RevisionNumber < math.MaxUint64 && fc.RenterOutput.Value.Cmp(types.Siacoins(2)) > 0
+			// contracts left with a missed host value above their host output by a legacy-era revision cannot be revised
+			// any further once the rule is in force: not a subject of honest actions
+			return fc.ProofHeight >= bc.H && fc.RevisionNumber < math.MaxUint64 && fc.RenterOutput.Value.Cmp(types.Siacoins(2)) > 0 &&
+				fc.MissedHostValue.Cmp(fc.HostOutput.Value) <= 0
 		})
 		if !ok {
 			return false
